@@ -22,7 +22,7 @@ META = {
                      "max/min/sqrt/** semantics of the standard library"],
     "assumptions": ["values are real numbers; rounding is out of scope here (see C20)"],
 }
-MIN_INSTANCES = {"INDUCT": 12, "COUNT": 2, "RANGE": 1}
+MIN_INSTANCES = {"INDUCT": 12, "COUNT": 2, "RANGE": 1, "COPY": 2}
 
 P = lambda s: ("param", s)
 N_, S_, Q_, V_ = P("#n"), P("#S"), P("#Q"), P("#v")
@@ -65,6 +65,19 @@ def _fields_read(t):
 
 
 def check(run):
+    _check_own(run)
+    from .common import numeric_mode, single_pass
+    numeric_mode(run, run.prog, "RANGE")
+    single_pass(run, run.prog, [c for c in run.prog.all_classes() if c.module.name.startswith("ixai.utils.tracker")], "COUNT")
+    # COPY: a copied tracker carries its count, its mean and its second moment
+    from .copylib import copy_protocol
+    prog = run.prog
+    for cls in [prog.find_class("WelfordTracker"), prog.find_class("ExponentialSmoothingTracker")]:
+        if cls is not None:
+            copy_protocol(run, prog, cls)
+
+
+def _check_own(run):
     prog = run.prog
     W = prog.find_class("WelfordTracker")
     E = prog.find_class("ExponentialSmoothingTracker")
@@ -236,6 +249,27 @@ def _smoothing(run, prog, E):
                      f"{name} must report the smoothed state itself, it reports {ir.show_nl(g_pre)}")
             continue
         cand = substitute(g_post, pre)
+        unknown = _fields_read(cand)
+        # a field the constructor computes from the smoothing parameter alone and that nothing reassigns is a constant of
+        # the object -- unless the parameter itself is also read from a public attribute, which a user may set later
+        # (`tracker.alpha = a`): the two copies then disagree
+        for f in sorted(unknown):
+            v = init.fields.get(f)
+            derived = v is not None and not any(t[0] in ("field0", "draw", "res") for t in ir.subterms(v)) and \
+                {t for t in ir.subterms(v) if t[0] == "param"} == {alpha_param}
+            if not derived or upd.fields.get(f, ("field0", f)) != ("field0", f):
+                continue
+            both = ("field0", alpha_field) in ir.subterms(g_post) and not alpha_field.startswith("_")
+            if both:
+                run.fail("INDUCT", f"Smoothing.derived.{f}", f"{path}:{line}", fn, f"self.{f} = {ir.show_nl(v)} next to self.{alpha_field}",
+                         f"update takes one weight from self.{f}, computed once in the constructor as {ir.show_nl(v)}, and the "
+                         f"other from the public attribute self.{alpha_field}: after `tracker.{alpha_field} = a` the weights no "
+                         f"longer add up to one and the tracked value leaves the range of the inputs")
+                cand = None
+                break
+            cand = substitute(cand, {("field0", f): substitute(v, {alpha_param: A_})})
+        if cand is None:
+            continue
         unknown = _fields_read(cand)
         if unknown:
             raise AnalysisError(f"ExponentialSmoothingTracker.update reads state outside the schema: {sorted(unknown)}")
